@@ -17,7 +17,10 @@ Record stobs := {
   (* phase 3: after concurrent Unsubscribe/Subscribe churn on two of four handlers, a probe event *)
   so_probe_bad : nat;                   (* handlers that did not get the probe exactly once (+10 if HandlerCount is not 4) *)
   (* phase 4: rounds of a fresh synchronous Sequential handler hit by four publishers at once *)
-  so_fresh_overlap : nat                (* rounds in which two of its invocations overlapped *)
+  so_fresh_overlap : nat;               (* rounds in which two of its invocations overlapped *)
+  so_misorder : nat;                    (* phase 1, Sequential handlers: events seen after a later event of the same publisher *)
+  (* phase 5: rounds of one goroutine publishing a burst to a fresh Async+Sequential handler *)
+  so_burst_bad : nat                    (* rounds in which the burst was not processed completely and in publish order *)
 }.
 
 Definition ok_stress (i : nat * nat * nat * bool) (o : stobs) : bool :=
@@ -29,9 +32,42 @@ Definition ok_stress (i : nat * nat * nat * bool) (o : stobs) : bool :=
   (if store then Nat.eqb (so_records o) events else Nat.eqb (so_records o) 0) && Nat.eqb (so_disorder o) 0 &&
   Nat.eqb (so_escaped o) 0 &&
   Nat.eqb (so_once_lost o) 0 && Nat.eqb (so_once_stale o) 0 && Nat.eqb (so_dead_seen o) 0 && Nat.eqb (so_probe_bad o) 0 &&
-  Nat.eqb (so_fresh_overlap o) 0.
+  Nat.eqb (so_fresh_overlap o) 0 && Nat.eqb (so_misorder o) 0 && Nat.eqb (so_burst_bad o) 0.
 
 Definition check_stress (c : (nat * nat * nat * bool) * stobs) : bool * bool * nat := (true, ok_stress (fst c) (snd c), 0).
+
+(* the same counts, projected on what each property says (a violation of one is not reported under another) *)
+Definition delivered_once (i : nat * nat * nat * bool) (o : stobs) : bool :=
+  let '(nst, nonce, events, store) := i in
+  Nat.eqb (length (so_stable o)) nst &&
+  forallb (fun x => let '(total, bad, overlaps) := x in Nat.eqb total events && Nat.eqb bad 0) (so_stable o).
+(* C01: every stable handler got every event exactly once; the probe reached every handler exactly once *)
+Definition ok_stress01 (i : nat * nat * nat * bool) (o : stobs) : bool :=
+  delivered_once i o && Nat.eqb (so_probe_bad o) 0 && Nat.eqb (so_escaped o) 0.
+(* C02: the registry ends where the subscriptions and removals put it *)
+Definition ok_stress02 (i : nat * nat * nat * bool) (o : stobs) : bool :=
+  let '(nst, nonce, events, store) := i in
+  Nat.eqb (so_count o) nst && Nat.eqb (so_probe_bad o) 0 && Nat.eqb (so_once_stale o) 0 && Nat.eqb (so_escaped o) 0.
+(* C04: Once handlers fire exactly once, for a live publish, and are retired *)
+Definition ok_stress04 (i : nat * nat * nat * bool) (o : stobs) : bool :=
+  let '(nst, nonce, events, store) := i in
+  Nat.eqb (length (so_once o)) nonce && forallb (fun f => Nat.eqb f 1) (so_once o) &&
+  Nat.eqb (so_once_lost o) 0 && Nat.eqb (so_once_stale o) 0 && Nat.eqb (so_dead_seen o) 0 && Nat.eqb (so_escaped o) 0.
+(* C07: Sequential handlers never overlap, still get every event exactly once, and (Async) keep each publisher's order *)
+Definition ok_stress07 (i : nat * nat * nat * bool) (o : stobs) : bool :=
+  delivered_once i o &&
+  forallb (fun x => let '(total, bad, overlaps) := x in Nat.eqb overlaps 0) (so_stable o) &&
+  Nat.eqb (so_fresh_overlap o) 0 && Nat.eqb (so_misorder o) 0 && Nat.eqb (so_burst_bad o) 0 && Nat.eqb (so_escaped o) 0.
+(* C09: one record per publish, in increasing offset order *)
+Definition ok_stress09 (i : nat * nat * nat * bool) (o : stobs) : bool :=
+  let '(nst, nonce, events, store) := i in
+  (if store then Nat.eqb (so_records o) events else Nat.eqb (so_records o) 0) && Nat.eqb (so_disorder o) 0 &&
+  Nat.eqb (so_escaped o) 0.
+Definition check_stress01 (c : (nat * nat * nat * bool) * stobs) : bool * bool * nat := (true, ok_stress01 (fst c) (snd c), 0).
+Definition check_stress02 (c : (nat * nat * nat * bool) * stobs) : bool * bool * nat := (true, ok_stress02 (fst c) (snd c), 0).
+Definition check_stress04 (c : (nat * nat * nat * bool) * stobs) : bool * bool * nat := (true, ok_stress04 (fst c) (snd c), 0).
+Definition check_stress07 (c : (nat * nat * nat * bool) * stobs) : bool * bool * nat := (true, ok_stress07 (fst c) (snd c), 0).
+Definition check_stress09 (c : (nat * nat * nat * bool) * stobs) : bool * bool * nat := (true, ok_stress09 (fst c) (snd c), 0).
 
 (* waitstress.go: after every Wait, the handlers of the events the caller had published before have finished *)
 Record wsobs := { ws_early : nat;      (* Wait calls that returned while a handler of an earlier publish of the caller was unfinished *)
